@@ -27,13 +27,14 @@ TRUSTED = ["rustc nightly MIR + const evaluation", "mirfacts extractor", "rules/
 GUID = "258EAFA5-E914-47DA-95CA-C5AB0DC85B11"
 UPG_ADT = "websocket::WebsocketUpgrade"
 INNER_ADT = "websocket::WebsocketUpgradeInner"
-GET = r"^http::HeaderMap::<T>::get$"
+GET = r"^http::HeaderMap::<T>::(get|get_all)$"
 BAD = r"^error::HttpError::for_bad_request$"
 OTHER_CTOR = r"^error::HttpError::for_(internal_error|unavail|not_found|client_error)"
 HEADERS = r"^http::Request::<T>::headers$"
 OPT_FLOW = [r"Option::<T>::map$", r"Option::<T>::and_then$", r"Option::<T>::ok_or_else$", r"Option::<T>::ok_or$", r"Option::<T>::filter$"]
 HV_VIEW = [r"^http::HeaderValue::(as_bytes|to_str)$", r"Result::<T, E>::ok$", r"str::<impl str>::as_bytes$"]
 TOKENS = {"CONNECTION": "upgrade", "UPGRADE": "websocket"}
+OTHER_TOKEN = {"CONNECTION": "keep-alive", "UPGRADE": "h2c"}
 MANDATORY = ("CONNECTION", "UPGRADE", "SEC_WEBSOCKET_VERSION", "SEC_WEBSOCKET_KEY")
 
 
@@ -145,6 +146,8 @@ def _absent_default(term):
         return _const_bool(term["args"][1])
     if re.search(r"Option::<T>::(is_some_and|unwrap_or_default)$", c):
         return False
+    if re.search(r"iter::Iterator::any$", c):
+        return False          # any() over the (possibly empty) sequence of field lines
     return None
 
 
@@ -514,7 +517,50 @@ def r4_no_bypass(ctx):
         ctx.check(R, "constructed-only-in-from_request:%s" % adt.split("::")[-1], bool(sites) and all(s in home for s in sites), "aggregate sites: %s" % [s.split(">::")[-1] for s in sites], b)
 
 
-RULES = [("C20.R1", r1_four_checks), ("C20.R2", r2_accept_digest), ("C20.R3", r3_switching_and_handoff), ("C20.R4", r4_no_bypass)]
+# ------------------------------------------------------------------------------------------------ optional (not in RULES): value-level list parsing
+def x5_list_headers(ctx):
+    """Armed since the repair d8a2f7a (the pinned tree read only the first field line and ignored HTAB; see known_findings.json `fixed:`):
+    Connection / Upgrade are comma-separated list fields that may be split over several field lines and use SP / HTAB as optional whitespace (RFC 9110 5.3, 5.6.1);
+    the structural necessary conditions are (a) every field line is consulted (HeaderMap::get_all, not get = first line only) and (b) tokens are trimmed of SP and HTAB."""
+    R = ctx.rule("C20.X5", "list-valued handshake headers: all field lines are consulted and tokens are separated by `,` with SP/HTAB optional whitespace", floor=4)
+    try:
+        w, b = _from_request(ctx, R)
+    except LookupError:
+        return
+    for H in ("CONNECTION", "UPGRADE"):
+        gets = [(bb, t) for bb, t in b.live_calls(GET) if _hdr_consts(b.slice(t["args"][1])) == {H}]
+        if len(gets) != 1:
+            ctx.lost(R, "lookup of %s" % H)
+            continue
+        gbb, gt = gets[0]
+        ctx.check(R, "%s:all-field-lines" % H, gt["callee"].endswith("get_all"),
+                  "%s is read with %s: %s" % (H, gt["callee"].split("::")[-1], "every field line" if gt["callee"].endswith("get_all") else
+                                             "only the first field line is seen, so `%s: %s` followed by a second `%s: %s` line is answered 400" % (H.title(), OTHER_TOKEN[H], H.title(), TOKENS[H])), (b, gbb))
+        seps, trims = set(), False
+        for sbb, t in b.switches():
+            sl = b.slice(t["discr"])
+            if not any(bb == gbb for _, bb, _ in sl.calls(GET)):
+                continue
+            for g in _closures_on(ctx.ds, sl):
+                trims = trims or bool(g.live_calls(r"str::<impl str>::trim$|trim_matches$"))
+                for bb, i, st in g.stmts():
+                    rv = st["rv"]
+                    if rv["rv"] == "binop" and rv["op"] == "Eq":
+                        for o in (rv["a"], rv["b"]):
+                            if o.get("k") == "const" and o.get("ty") == "char" and o.get("val"):
+                                seps.add(o["val"]["int"])
+                for bb, t2 in g.live_calls(r"str::<impl str>::split$"):
+                    for a in t2["args"][1:]:
+                        if a.get("k") == "const" and a.get("ty") == "char" and a.get("val"):
+                            seps.add(a["val"]["int"])
+        ok = 44 in seps and (trims or {32, 9} <= seps)
+        ctx.check(R, "%s:ows-is-sp-and-htab" % H, ok, "separator characters %s, items trimmed: %s%s" % (sorted(chr(c) for c in seps), trims,
+                  "" if ok else " — `%s: %s,<TAB>%s` is answered 400" % (H.title(), OTHER_TOKEN[H], TOKENS[H])), (b, gbb))
+
+
+OPTIONAL_RULES = []  # X5 is armed since the repair d8a2f7a in /repo
+
+RULES = [("C20.R1", r1_four_checks), ("C20.R2", r2_accept_digest), ("C20.R3", r3_switching_and_handoff), ("C20.R4", r4_no_bypass), ("C20.X5", x5_list_headers)]
 
 WS = "dropshot/src/websocket.rs"
 _VER_HEAD = """        if request
@@ -567,6 +613,20 @@ SELFTEST = [
      "edits": [(WS, "    let mut sha1 = Sha1::default();\n" + _UPDATES + "\n    base64::engine::general_purpose::STANDARD.encode(&sha1.finalize())",
                 "    let mut hasher = Sha1::new();\n    hasher.update(request_key);\n    hasher.update(WS_GUID);\n    let digest = hasher.finalize();\n    base64::engine::general_purpose::STANDARD.encode(&digest)")],
      "why": "behaviour-preserving: local renamed, Sha1::new() for default(), digest bound to a local"},
+    {"name": "connection-all-lines-trimmed", "kind": "benign",
+     "edits": [(WS, """            .get(header::CONNECTION)
+            .and_then(|hv| hv.to_str().ok())
+            .map(|hv| {
+                hv.split(|c| c == ',' || c == ' ')
+                    .any(|vs| vs.eq_ignore_ascii_case("upgrade"))
+            })
+            .unwrap_or(false)
+""", """            .get_all(header::CONNECTION)
+            .iter()
+            .filter_map(|hv| hv.to_str().ok())
+            .any(|hv| hv.split(',').any(|t| t.trim().eq_ignore_ascii_case("upgrade")))
+""")],
+     "why": "property-preserving (accepts strictly more valid spellings): every Connection field line is consulted and tokens are trimmed; same reject/accept structure"},
     {"name": "log-line-and-match", "kind": "benign",
      "edits": [(WS, "        let route = request.uri().to_string();", '        debug!(rqctx.log, "websocket handshake accepted");\n        let route = request.uri().to_string();'),
                (WS, "            .unwrap_or(false)\n        {\n            return Err(HttpError::for_bad_request(\n                None,\n                \"expected connection upgrade\".to_string(),\n            ));\n        }",
